@@ -126,6 +126,8 @@ class PathSum:
             self.enums.update(enums)
         self.closures = {}
         self._closure_refs = {}
+        self.curried = set()           # parser factories written in uncurried form (ctx.., input)
+        self._tsub = {}                # type parameter -> type, while a generic helper is evaluated in place
         self.take_while_fn = None      # def path of the library's take_while combinator, when the analysed crate has one
         self.loops = {}
         self.npaths = 0
@@ -527,6 +529,12 @@ class PathSum:
     def ev_Cast(self, e, st):
         # a cast that keeps every value of the source type (u8 -> usize ...) is marked "exact": only those are
         # transparent to the linear arithmetic (linform)
+        if e["ty"] == "char" and e["e"].get("ty", "") == "u8":
+            def tochar(s, v):
+                if v[0] == "lit" and isinstance(v[2], int) and not isinstance(v[2], bool):
+                    return [("val", s, ("lit", "char", v[2]))]
+                return [("val", s, ("cast", v, "char"))]
+            return self._map1(e["e"], st, tochar)
         if exact_int_cast(e["e"].get("ty", ""), e["ty"]):
             return self._map1(e["e"], st, lambda s, v: [("val", s, ("cast", v, e["ty"], "exact"))])
         return self._map1(e["e"], st, lambda s, v: [("val", s, ("cast", v, e["ty"]))])
@@ -1019,10 +1027,16 @@ class PathSum:
     def can_inline(self, callee):
         return callee in self.inline and callee not in self._inl_stack and self._inl_depth <= 4
 
-    def inline_call(self, callee, args, st):
+    def inline_call(self, callee, args, st, node=None):
         b = self.inline[callee]
         self._inl_depth += 1
         self._inl_stack.append(callee)
+        # generic helper: its type parameters stand for the generic arguments of this call
+        old_sub = self._tsub
+        gn, ga = b.get("generics") or [], (node or {}).get("gargs") or []
+        if gn and len(gn) == len(ga):
+            self._tsub = dict(old_sub)
+            self._tsub.update({n: old_sub.get(a, a) for n, a in zip(gn, ga) if not n.startswith("'")})
         try:
             s = st
             for p, a in zip(b["params"], args):
@@ -1040,6 +1054,7 @@ class PathSum:
         finally:
             self._inl_depth -= 1
             self._inl_stack.pop()
+            self._tsub = old_sub
 
     def call_fn_term(self, ft, args, st, site, node):
         if ft[0] == "closure":
@@ -1070,8 +1085,16 @@ class PathSum:
                 if r is not None:
                     out += r
                     continue
+                if callee in self.curried and len(v) >= 2:
+                    # uncurried parser factory: f(ctx.., input) is presented as the application f(ctx..)(input)
+                    s = s.fork()
+                    ft = ("call", callee, tuple(v[:-1]), site)
+                    s.add_effect(("call", callee, tuple(v[:-1]), site))
+                    s.add_effect(("apply", ft, (v[-1],), site))
+                    out.append(("val", s, ("apply", ft, (v[-1],), site)))
+                    continue
                 if self.can_inline(callee):
-                    out += self.inline_call(callee, v, s)
+                    out += self.inline_call(callee, v, s, e)
                     continue
                 s = s.fork()
                 s.add_effect(("call", callee, tuple(v), site))
@@ -1087,7 +1110,7 @@ class PathSum:
         site = loc(e)
         callee = base_path(e.get("resolved") or e.get("callee") or ("?::" + e["name"]))
         if e["name"] == "parse" and callee.endswith("str::parse") and e.get("gargs"):
-            callee = callee + "::<%s>" % e["gargs"][0]
+            callee = callee + "::<%s>" % self._tsub.get(e["gargs"][0], e["gargs"][0])
         cur, ab = self.ev_list([e["recv"]] + e["args"], st)
         out = list(ab)
         if e["name"] == "count" and not e["args"] and self.take_while_fn:
@@ -1122,7 +1145,7 @@ class PathSum:
                 out += r
                 continue
             if self.can_inline(callee):
-                out += self.inline_call(callee, v, s)
+                out += self.inline_call(callee, v, s, e)
                 continue
             s = s.fork()
             s.add_effect(("call", callee, tuple(v), site))
@@ -1132,6 +1155,10 @@ class PathSum:
     # -- Result / Option combinators
     def combinator(self, callee, v, st, site, node):
         head = callee
+        if len(v) == 1 and v[0][0] == "lit" and isinstance(v[0][2], int) and not isinstance(v[0][2], bool) and (node.get("ty") == "char") \
+                and head.split("::")[-1] == "from" and "char" in head:
+            # char::from(<u8 literal>) is that character
+            return [("val", st, ("lit", "char", v[0][2]))]
         if head.endswith("::find") and ("Iterator" in head or "iter::" in head) and len(v) == 2 and v[1][0] == "closure":
             # find(it, pred): Some(item) with pred(item) true for an element of `it`, or None when no element satisfies it
             item = ("iter_item", v[0], site)
